@@ -114,6 +114,11 @@ def run(ctx) -> None:
             why = "the current time"
         rep.check("C10.R2", ok_pos and ok_val, D, n.ast, f"event.{fld} is stamped with {why} before delivery", f"event.{fld} is stamped with `{ast.unparse(v)}`" + ("" if ok_pos else " after delivery started"))
 
+    # the dispatching instance / channel identity is C11's business: shared obligation
+    from .common import include_rules
+
+    include_rules(ctx, "c11", "C10.R2", only=("C11.R1", "C11.R2", "C11.R3", "C11.R6"))
+
     # ------------------------------------------------------------------ R3 non-blocking
     rep.check("C10.R3", not D.is_async, D, D.node, "dispatch is a plain function: it cannot block on a subscriber", "dispatch is a coroutine")
     blocking = [c for c in walk_own(D.node) if isinstance(c, ast.Call) and call_name(c) in ("send", "wait", "sleep", "run", "from_thread")]
